@@ -350,7 +350,7 @@ func TestC05Nested(t *testing.T) {
 		}
 		if rec.Known("C05-F1") {
 			switch out.Symptom {
-			case "missing-request", "not-complete", "extra-request", "flows", "ends":
+			case "missing-request", "not-complete", "extra-request", "flows", "ends", "errors":
 				rec.KnownHit("TestC05Nested", "C05-F1", hash)
 				return
 			}
